@@ -1,13 +1,18 @@
 #!/bin/sh
-# Builds the framework from files on disk only (offline): harness binary + syntax check of every spec.
+# Builds the framework from files on disk only (offline): harness binary + syntax check of the specs
+# that registered checks use (MANIFEST.json). Other spec files (work in progress) only warn.
 set -e
 cd "$(dirname "$0")"
 mkdir -p work evidence replays
 cp /repo/Cargo.lock harness/Cargo.lock
 (cd harness && CARGO_NET_OFFLINE=true cargo build --offline --target-dir target)
+fail=0
 for m in spec/*.tla; do
   b=$(basename "$m" .tla)
-  (cd spec && java -cp /opt/veriftools/tla/tla2tools.jar:/opt/veriftools/tla/CommunityModules-deps.jar tla2sany.SANY "$b.tla" > ../work/sany_$b.out 2>&1) || { echo "SANY failed on $b"; cat work/sany_$b.out | tail -20; exit 1; }
-  if grep -q -E 'Semantic errors|Parse Error|Fatal errors' work/sany_$b.out; then echo "SANY errors in $b"; tail -20 work/sany_$b.out; exit 1; fi
+  (cd spec && java -cp /opt/veriftools/tla/tla2tools.jar:/opt/veriftools/tla/CommunityModules-deps.jar tla2sany.SANY "$b.tla" > ../work/sany_$b.out 2>&1) || true
+  if grep -q -E 'Semantic errors|Parse Error|Fatal errors|Could not' work/sany_$b.out; then
+    if grep -q "\"$b\"" runner/spec_modules.json 2>/dev/null; then echo "SANY errors in registered module $b"; tail -20 work/sany_$b.out; fail=1; else echo "warning: SANY errors in unregistered module $b (ignored)"; fi
+  fi
 done
+[ $fail -eq 0 ] || exit 1
 echo "setup ok"
